@@ -52,6 +52,15 @@ func staticOps() []string {
 
 // procFor: a processor holding exactly `ops`, with the smallest environment those opcodes need
 func procFor(ops []string, mode string, thr int) (procSpec, []string) {
+	var uniq []string
+	dup := map[string]bool{}
+	for _, o := range ops {
+		if !dup[o] {
+			dup[o] = true
+			uniq = append(uniq, o)
+		}
+	}
+	ops = uniq
 	p := procSpec{R: 2, O: 4, Mode: mode, Threaded: thr, Ops: append([]string{}, ops...)}
 	var sos []string
 	seen := map[string]bool{}
@@ -374,6 +383,68 @@ func genPermuted(thorough bool) {
 	}
 }
 
+// genMultiSame: one processor attached to 2..3 shared objects of the SAME kind (the per-processor
+// sequence numbers q0, q1, … of arch.go / conproc.go against the global ones of bondmachine.v), alone,
+// interleaved with an object of another kind, and with a second processor attached to the last one only
+func genMultiSame(thorough bool) {
+	variant := func(so string, i int) string {
+		kind := strings.SplitN(so, ":", 2)[0]
+		switch kind {
+		case "queue", "stack", "sharedmem", "kbd":
+			return fmt.Sprintf("%s:%d", kind, []int{4, 8, 4}[i%3])
+		case "uart":
+			return fmt.Sprintf("uart:9600:%d", []int{4, 8, 4}[i%3])
+		case "lfsr8":
+			return fmt.Sprintf("lfsr8:%d", i+1)
+		case "barrier":
+			return fmt.Sprintf("barrier:%d", []int{0, 5, 0}[i%3])
+		}
+		return so
+	}
+	seen := map[string]bool{}
+	for _, so := range soKinds {
+		kind := strings.SplitN(so, ":", 2)[0]
+		if seen[kind] || kind == "vtextmem" { // one vtextmem per machine (it owns the screen)
+			continue
+		}
+		seen[kind] = true
+		ops := append([]string{"rset", "j"}, soOps(so)[0]...)
+		other := "lfsr8:7"
+		otherOps := []string{"lfsr82r"}
+		if kind == "lfsr8" {
+			other, otherOps = "sharedmem:4", []string{"r2s", "s2r"}
+		}
+		for k := 2; k <= 3; k++ {
+			// (a) alone
+			s := &spec{Kind: fmt.Sprintf("multi:%sx%d", kind, k), Rsize: 8, Flavor: "iverilog"}
+			p, _ := procFor(ops, "ha", 0)
+			s.Procs = []procSpec{p}
+			for i := 0; i < k; i++ {
+				s.Sos = append(s.Sos, variant(so, i))
+				s.Links = append(s.Links, [2]int{0, i})
+			}
+			emit(finalize(s))
+			if k == 3 && !thorough {
+				continue
+			}
+			// (b) another kind in between, (c) a second processor on the last object
+			t := &spec{Kind: fmt.Sprintf("multi:%sx%d+other", kind, k), Rsize: 8, Flavor: "iverilog"}
+			p2, _ := procFor(append(append([]string{}, ops...), otherOps...), "ha", 0)
+			q, _ := procFor(ops, "ha", 0)
+			t.Procs = []procSpec{p2, q}
+			t.Sos = []string{variant(so, 0), other}
+			for i := 1; i < k; i++ {
+				t.Sos = append(t.Sos, variant(so, i))
+			}
+			for i := range t.Sos {
+				t.Links = append(t.Links, [2]int{0, i})
+			}
+			t.Links = append(t.Links, [2]int{1, len(t.Sos) - 1})
+			emit(finalize(t))
+		}
+	}
+}
+
 func pickN(r *common.Rng, xs []string, k int) []string {
 	ys := append([]string{}, xs...)
 	for i := len(ys) - 1; i > 0; i-- {
@@ -395,6 +466,30 @@ func gen(thorough bool) {
 	for _, o := range static {
 		p, sos := procFor([]string{o}, "ha", 0)
 		emit(finalize(single("iso:"+o, 8, p, sos, "iverilog")))
+	}
+	// (1b) the mode x opcode product: every opcode (static + one member of every dynamic family) alone in a
+	//      vn and in a hy processor as well (no opcode declares Required_modes / Forbidden_modes, so every
+	//      mode is allowed), and once more next to a minimal common set (rset, inc, j) in a mode that
+	//      rotates with the seed (thorough: in all three)
+	{
+		all := append(append([]string{}, static...), dynamicOps...)
+		for oi, o := range all {
+			rs := 8
+			if oi >= len(static) {
+				rs = 16
+			}
+			for _, mode := range []string{"vn", "hy"} {
+				p, sos := procFor([]string{o}, mode, 0)
+				emit(finalize(single("modeiso:"+mode+":"+o, rs, p, sos, "iverilog")))
+			}
+			for mi, mode := range []string{"ha", "vn", "hy"} {
+				if !thorough && (oi+int(common.Seed()))%3 != mi {
+					continue
+				}
+				p, sos := procFor([]string{o, "rset", "inc", "j"}, mode, 0)
+				emit(finalize(single("modemix:"+mode+":"+o, rs, p, sos, "iverilog")))
+			}
+		}
 	}
 	// (2) every dynamic family
 	for _, o := range dynamicOps {
@@ -429,6 +524,8 @@ func gen(thorough bool) {
 	genShareFamilies(static, thorough)
 	// (4c) processor -> domain mappings that are not the identity
 	genPermuted(thorough)
+	// (4d) one processor attached to several shared objects of the same kind
+	genMultiSame(thorough)
 	// (5) ports without IO opcodes (the CLIs let the user choose N and M freely)
 	{
 		p := procSpec{R: 2, N: 2, M: 0, O: 4, Mode: "ha", Ops: []string{"inc", "j"}}
